@@ -625,6 +625,9 @@ func (g *Gen) builtin(b *ssa.Builtin, c *ssa.CallCommon, rt types.Type, pos toke
 				r := g.define("mlen", "Int", fmt.Sprintf("(ite (= %s 0) 0 (%s (select %s %s)))", v.S, g.mapCard(vt), g.heapGet(g.cur, dom), v.S))
 				g.assume("(>= " + r + " 0)")
 				g.assume("(<= " + r + " " + g.idxLit(maxLen) + ")")
+				// a map of size 0 has no entries (the converse, an empty domain has size 0, is stated where maps are made)
+				ks := g.sortOf(vt.Key())
+				g.assume(fmt.Sprintf("(=> (= %s 0) (forall ((k %s)) (! (not (and (not (= %s 0)) (select (select %s %s) k))) :pattern ((select (select %s %s) k)))))", r, ks, v.S, g.heapGet(g.cur, dom), v.S, g.heapGet(g.cur, dom), v.S))
 				return Val{T: it, S: r}
 			}
 		case *types.Array:
